@@ -208,3 +208,77 @@ Fixpoint sanitize (in_run : bool) (s : string) : string :=
 Definition package_name (name : string) : string := "profile_" ++ sanitize false name.
 Definition ident_char (c : ascii) : bool :=
   let b := byte c in (Nat.leb 48 b && Nat.leb b 57) || (Nat.leb 97 b && Nat.leb b 122) || Ascii.eqb c "_".
+
+(* ------------------------------------------------------------------ patterns and value lists *)
+(* generator/pattern.go regoPatternLiteral: a regular expression is written as a raw string between backticks; one that
+   contains a backtick cannot be, and is written as an escaped double-quoted string *)
+Fixpoint has_backtick (s : string) : bool :=
+  match s with EmptyString => false | String c r => Ascii.eqb c "`" || has_backtick r end.
+Definition pattern_literal (p : string) : string :=
+  if has_backtick p then String """" (escape p ++ """") else String "`" (p ++ "`").
+
+(* the engine's two string syntaxes: a raw string runs to the next backtick, verbatim; a quoted one is scanned as above *)
+Fixpoint scan_raw (s : string) : option (string * string) :=
+  match s with
+  | EmptyString => None
+  | String c r => if Ascii.eqb c "`" then Some ("", r)
+                  else match scan_raw r with Some (t, z) => Some (String c t, z) | None => None end
+  end.
+Definition scan_string_term (fuel : nat) (s : string) : option (string * string) :=
+  match s with
+  | String c r => if Ascii.eqb c "`" then scan_raw r else if Ascii.eqb c """" then scan_literal fuel r else None
+  | EmptyString => None
+  end.
+
+(* generator/quote.go regoStringSet: the values of containsAll / containsSome as a Rego SET literal; `{ }` would be the
+   empty OBJECT, so the empty list is written set() *)
+Definition join_quoted (l : list string) : string :=
+  (fix go (l : list string) : string :=
+     match l with
+     | [] => ""
+     | [x] => String """" (escape x ++ """")
+     | x :: r => String """" (escape x ++ """") ++ "," ++ go r
+     end) l.
+Definition string_set_literal (l : list string) : string :=
+  match l with [] => "set()" | _ => "{ " ++ join_quoted l ++ "}" end.
+(* how the engine classifies a braces / set() term: by what follows the opening brace *)
+Inductive term_kind := KSet | KObject | KOther.
+Definition classify_collection (s : string) : term_kind :=
+  match s with
+  | String "s" (String "e" (String "t" (String "(" (String ")" _)))) => KSet
+  | String "{" r =>
+      (fix skip (fuel : nat) (r : string) : term_kind :=
+         match fuel with
+         | O => KOther
+         | S fuel => match r with
+                     | String " " r' => skip fuel r'
+                     | String "}" _ => KObject            (* `{}` and `{ }` are the empty object *)
+                     | String """" _ => KSet               (* an element follows (none of ours is a key: value pair) *)
+                     | _ => KOther
+                     end
+         end) (S (String.length r)) r
+  | _ => KOther
+  end.
+
+(* the engine reading n comma-separated string literals (the elements of a set / array literal) *)
+Fixpoint scan_elements (fuel : nat) (n : nat) (s : string) : option (list string * string) :=
+  match n with
+  | O => Some ([], s)
+  | S n' =>
+    match s with
+    | String """" r =>
+        match scan_literal fuel r with
+        | Some (x, rest) =>
+            match n' with
+            | O => Some ([x], rest)
+            | S _ => match rest with
+                     | String "," rest' => match scan_elements fuel n' rest' with Some (l, z) => Some (x :: l, z) | None => None end
+                     | _ => None
+                     end
+            end
+        | None => None
+        end
+    | _ => None
+    end
+  end.
+Fixpoint max_length (l : list string) : nat := match l with [] => 0 | x :: r => Nat.max (String.length x) (max_length r) end.
